@@ -221,6 +221,11 @@ def events (m : MapSt) (s : State) (l : RawLine) : Except String (MapSt × List 
     match (s.loc g).running with
     | some j => .ok (m, [.exit g j])
     | none => .error "worker function exit without entry"
+  | "A", _ :: "ack" :: _ =>
+    -- the adapter's Acknowledge is called from job.ack(), i.e. by the goroutine that closed the job
+    match (s.loc g).owesDone with
+    | some j => .ok (m, [.ack g j])
+    | none => .error "Acknowledge called by a goroutine that is not closing a job"
   | "C", _ :: _ => .ok ({ m with lastChan := adel m.lastChan g }, [])
   | "R", _ :: "addall" :: _ => .ok ({ m with curBatch := adel m.curBatch g }, [])
   | _, _ => .ok (m, [])
